@@ -9,7 +9,7 @@ from .. import core, gen, impl_thr, scen
 from . import c01, c09
 
 ID = "C13"
-BUDGET = {"quick": 300, "thorough": 30000}
+BUDGET = {"quick": 1200, "thorough": 150000}
 RULE = ("(a) exhaustive: for each of the six scheduling calls and the Scheduler(jobs=...) constructor, every naive/aware assignment "
         "to scheduler, each timing entry (1-2 entries), start and stop (2^k, k <= 5) is run; Spec: accepted iff uniform (model), "
         "rejection is SchedulerError raised by the call itself, and a following exec_jobs never raises; (b) random pairs of "
